@@ -73,7 +73,7 @@ impl Property for C06 {
         let vals = valuations_from_json(&case["valuations"]);
         let hooks = spec.hooks();
         tx::with_truth(|truth| {
-            let opts = tx::PipeOpts { const_simplify: false, lower: false, debug_info: false };
+            let opts = tx::PipeOpts { const_simplify: false, lower: false, debug_info: false, stop_after_typecheck: false };
             let compiled = match tx::compile_body(truth, &spec, &hooks, text, opts) {
                 Ok(c) => c,
                 Err(stage) => {
